@@ -17,7 +17,7 @@ ASSUMPTIONS = c01.ASSUMPTIONS
 PROBES = ["stop_with_2plus_alive", "exception_mid_cycle_with_live_doers_both_sides", "enter_failure_inside_extend",
           "stop_after_runtime_extend", "dodoer_closed_by_parent_with_children"]
 BOUNDS = c01.BOUNDS
-TIERS = dict(quick=dict(cases=24000, wall=40.0), thorough=dict(cases=1500000, wall=420.0))
+TIERS = dict(quick=dict(cases=40000, wall=60.0), thorough=dict(cases=1500000, wall=420.0))
 
 
 def run_case(tape, tier):
